@@ -9,8 +9,12 @@ EXTENDS Subsets
 CONSTANTS MaxViews, MaxSeg
 VARIABLES c, n, res
 
-Configs == { x \in [views : 1 .. MaxViews, maxSeg : 0 .. MaxSeg, s90 : BOOLEAN, s180 : BOOLEAN, sseg : BOOLEAN,
+Configs == { x \in [views : 1 .. MaxViews, minSeg : -MaxSeg .. 0, maxSeg : 0 .. MaxSeg, s90 : BOOLEAN, s180 : BOOLEAN, sseg : BOOLEAN,
                     minTof : {0}, maxTof : {0}] : Legal(x) /\ (x.s90 => x.s180) }
+\* why Legal demands a symmetric segment range for the swap-segment symmetry: the same configurations with a
+\* range that is not symmetric (what reduce_segment_range(-2, 1) followed by a projector with that symmetry gives)
+AsymSwap == { x \in [views : 1 .. MaxViews, minSeg : -MaxSeg .. 0, maxSeg : 0 .. MaxSeg, s90 : {FALSE}, s180 : {FALSE}, sseg : {TRUE},
+                     minTof : {0}, maxTof : {0}] : x.minSeg # -x.maxSeg }
 
 EvalCfg(x) == [kind |-> "cfg", t1 |-> T1(x), t2 |-> T2(x)]
 EvalN(x, N) ==
@@ -23,20 +27,22 @@ EvalN(x, N) ==
    bal |-> EqualSizes(sz, N),
    basicsSplit |-> UNION { SubsetVS(x, s, N) : s \in 0 .. N - 1 } = { vs \in AllVS(x) : IsBasic(x, vs) }]
 
-Init == /\ c \in Configs /\ n \in 0 .. MaxViews + 1 /\ n <= c.views + 1 /\ res = [kind |-> "todo"]
+Init == /\ c \in Configs \cup AsymSwap /\ n \in 0 .. MaxViews + 1 /\ n <= c.views + 1 /\ res = [kind |-> "todo"]
 Eval == /\ res.kind = "todo"
         /\ res' = IF n = 0 THEN EvalCfg(c) ELSE EvalN(c, n)
         /\ UNCHANGED << c, n >>
 Next == Eval
 Spec == Init /\ [][Next]_<< c, n, res >>
 
-InvT1 == res.kind = "cfg" => res.t1
-InvT2 == res.kind = "cfg" => res.t2
+InvT1 == (res.kind = "cfg" /\ c \in Configs) => res.t1
+InvT2 == (res.kind = "cfg" /\ c \in Configs) => res.t2
 \* "the groups processed for the different subsets are disjoint and together contain every (segment, view) exactly once"
-InvPartition == res.kind = "n" => res.part /\ res.basicsSplit
-InvCount == res.kind = "n" => res.sizesAgree
+InvPartition == (res.kind = "n" /\ c \in Configs) => res.part /\ res.basicsSplit
+\* ... and a range that is not closed under the symmetries used is never partitioned (finding C06-asymseg at model level)
+InvAsymSwapNeverPartition == (res.kind = "n" /\ c \in AsymSwap) => ~res.part
+InvCount == (res.kind = "n" /\ c \in Configs) => res.sizesAgree
 \* T5 (sanity of Balanced): without view symmetries the subsets are balanced exactly when num_subsets divides num_views
 InvBalancedNoViewSym == (res.kind = "n" /\ ~c.s180) => (res.bal <=> c.views % n = 0)
 \* with N = 1 always balanced; with more subsets than views never
-InvBalancedEdges == res.kind = "n" => ((n = 1 => res.bal) /\ (n > c.views => ~res.bal))
+InvBalancedEdges == (res.kind = "n" /\ c \in Configs) => ((n = 1 => res.bal) /\ (n > c.views => ~res.bal))
 =============================================================================
